@@ -1877,12 +1877,10 @@ func (bc *Blockchain) AddBlock(block *block.Block) error {
 			var err error
 			// Transactions are verified before adding them
 			// into the pool, so there is no point in doing
-			// it again even if we're verifying in-block transactions.
-			if bc.memPool.ContainsKey(tx.Hash()) {
+			// it again even if we're verifying in-block transactions
+			// (unless the witnesses, which the hash doesn't cover, differ).
+			if ptx, ok := bc.memPool.TryGetValue(tx.Hash()); ok && txWitnessesEqual(ptx, tx) {
 				err = mp.Add(tx, bc)
-				if err == nil {
-					continue
-				}
 			} else {
 				err = bc.verifyAndPoolTx(tx, mp, bc)
 			}
@@ -1900,6 +1898,11 @@ func (bc *Blockchain) AddBlock(block *block.Block) error {
 // witnessesEqual tells whether two witnesses are the same byte for byte.
 func witnessesEqual(a, b transaction.Witness) bool {
 	return bytes.Equal(a.InvocationScript, b.InvocationScript) && bytes.Equal(a.VerificationScript, b.VerificationScript)
+}
+
+// txWitnessesEqual tells whether two transactions carry the same witnesses.
+func txWitnessesEqual(a, b *transaction.Transaction) bool {
+	return slices.EqualFunc(a.Scripts, b.Scripts, witnessesEqual)
 }
 
 // AddHeaders processes the given headers and add them to the
